@@ -458,6 +458,12 @@ def stage_detect(spec: dict) -> tuple:
         stages.classes.append("cds_with_several_definition_domains")
     if rule_results.cdses_outside_clusters:
         stages.classes.append("cds_results_outside")
+    # defining domains of one rule on one gene whose names only a careless sort key tells apart
+    groups = [names for item in dump for res in item["cds_results"] for _, names in res["definition_domains"]]
+    if any(len({name.lower() for name in names}) < len(names) for names in groups):
+        stages.classes.append("definition_domains_equal_up_to_case")
+    if any(len({name.replace("-", "").replace("_", "").lower() for name in names}) < len(names) for names in groups):
+        stages.classes.append("definition_domains_equal_up_to_punctuation")
     stages.add("cds_annotations", _cds_annotation_dump(record))
     for protocluster in results.get_predicted_protoclusters():
         stages.guard("areas", record.add_protocluster, protocluster)
